@@ -149,6 +149,31 @@ AuthChainOKWith(EM, P, loc, e) ==
 AuthChainOK(EM, F, P, e) == AuthChainOKWith(EM, P, LocalOK(EM, F, P), e)
 
 (***************************************************************************)
+(* How the provider answers ONE call (C14-w10): "exact" - the events asked *)
+(* for that it returns; "over" - those and, in the same answer, everything *)
+(* they cite that it returns, recursively (a store backed by auth chains   *)
+(* hands back the whole chain).  Fetched: the events obtained by asking,   *)
+(* again and again, for what the events at hand cite and is not at hand.   *)
+(* The sentence says "every fetched auth event": whichever call brought an *)
+(* event, it is fetched - the outcome does not depend on the mode          *)
+(* (FetchedWhicheverCall in FedVerify_gen).                                *)
+(***************************************************************************)
+ProvModes == {"exact", "over"}
+Answer(EM, P, mode, ids) ==
+    LET d == {a \in ids : P[a] = "returns"} IN
+    IF mode = "exact" THEN d ELSE ReachProv(EM, P, d, d)
+
+RECURSIVE Fetched(_, _, _, _, _)
+Fetched(EM, P, mode, frontier, seen) ==
+    LET nxt == Answer(EM, P, mode, CitedBy(EM, frontier) \ seen) \ seen IN
+    IF nxt = {} THEN seen ELSE Fetched(EM, P, mode, nxt, seen \cup nxt)
+
+\* what the provider must have been asked for when the chain of e verifies: in mode "over" events that came
+\* unasked need not be asked for
+ChainAskMin(EM, P, mode, e) ==
+    IF mode = "exact" THEN CitedBy(EM, ChainReach(EM, P, e)) ELSE EM[e].auth
+
+(***************************************************************************)
 (* VerifyAuthRulesAtState(e) with S the state before e as the state        *)
 (* provider reports it: accepts exactly when e is allowed by S, or - if    *)
 (* permitted (av) - when all auth events of e belong to S.                 *)
@@ -196,6 +221,18 @@ LoadClassCited(EM, F, P, loc, e, S) ==     \* diagnosis only, see AuthAtStateCit
     ELSE IF ~AuthChainOKWith(EM, P, loc, e) THEN "chain"
     ELSE IF ~AuthAtStateCited(EM, F, e, S, TRUE, "ok") THEN "rules"
     ELSE "ok"
+
+(***************************************************************************)
+(* RequestBackfill over several servers (C14-w10): every server's answer   *)
+(* is loaded and verified on its own (a round); C = the sequence of the    *)
+(* per-round classes.  An event that passes every check in SOME round is   *)
+(* returned (a transient fault of the caller's providers while another     *)
+(* server's copy was verified does not lose it), an event that in no round *)
+(* gets further than an auth check is not, and nothing is returned twice.  *)
+(* (Events failing only the signature check: the sentence is silent.)      *)
+(***************************************************************************)
+BackfillMust(C) == {e \in DOMAIN E : \E k \in DOMAIN C : C[k][e] = "ok"}
+BackfillMay(C) == {e \in DOMAIN E : \E k \in DOMAIN C : C[k][e] \in {"ok", "sig"}}
 
 (***************************************************************************)
 (* The property, stated on inputs and outputs only.                        *)
